@@ -66,6 +66,7 @@ func (service *importCache) getOrAdd(key string, add func() (rel.Expr, error)) (
 			// someone else can have a go.
 			service.mutex.Lock()
 			delete(service.cache, key)
+			service.cond.Broadcast()
 		}
 		service.mutex.Unlock()
 	}()
